@@ -15,9 +15,10 @@ BOUNDS = {
     'quick': 'F-beta formula: counts tp, fp, fn <= 3 (all 64 combinations) with beta any f32 value in (0, 8] widened to f64 (queries decided by cvc5); binary_f1 / '
              'accuracy: symbolic vectors of length <= 3 (and mismatching lengths); spelling / whitespace correction counts: '
              'triples (input, prediction, target) of strings of <= 2 characters (third string <= 3) over {a, b, space} with '
-             'symbolic characters; aggregation (micro / sequence averaged) over 0-2 sequences; mean (normalised) edit '
+             'symbolic characters, and word-level triples (1-2 words of 1-2 symbolic letters per text; prediction = target or '
+             'prediction = input: reordered / merged / split words); aggregation (micro / sequence averaged) over 0-2 sequences; mean (normalised) edit '
              'distance over 0-2 pairs',
-    'thorough': 'strings of <= 3 characters each (4 for one of them), counts <= 4, beta any f64 in (0, 8]',
+    'thorough': 'strings of <= 3 characters each (4 for one of them), word-level triples with up to 3 words / 3-letter words, counts <= 4, beta any f64 in (0, 8]',
 }
 OUTSIDE = ['longer strings and alphabets other than {a, b, space} (NFKC normalisation is modelled as the identity on '
            'NFKC-stable text)', 'rayon scheduling (modelled as a sequential map in index order)']
@@ -59,6 +60,15 @@ def shapes(tier):
                     out.append({'mode': 'spell', 'li': li, 'lp': lp, 'lt': lt, 'g': g})
                 for wm in MODES:
                     out.append({'mode': 'ws', 'li': li, 'lp': lp, 'lt': lt, 'wsmode': wm, 'g': True})
+    # word-level shapes: fixed word layouts with symbolic letters over {a, b}; the prediction is the target (calibration
+    # of false positives / negatives) or the input (no true positives); covers reordered, merged and split words
+    lays = [[1], [2], [1, 1], [2, 1], [1, 2]] + ([] if tier == 'quick' else [[1, 1, 1], [2, 2], [3], [1, 2, 1]])
+    for li_ in lays:
+        for lt_ in lays:
+            for pi in ('target', 'input'):
+                ni, nt = sum(li_) + len(li_) - 1, sum(lt_) + len(lt_) - 1
+                out.append({'mode': 'spell', 'li': ni, 'lp': nt if pi == 'target' else ni, 'lt': nt, 'g': True,
+                            'lay_i': li_, 'lay_t': lt_, 'pred_is': pi})
     for k in range(0, 3):
         for sa in (False, True):
             out.append({'mode': 'agg', 'k': k, 'seq_avg': sa})
@@ -75,6 +85,21 @@ def abs_string(ctx, name, n):
     if ctx.concrete is None:
         for c in s.chars():
             ctx.assume(z3.Or(c.v == 0x61, c.v == 0x62, c.v == 0x20))
+    return s
+
+
+def layout_string(ctx, name, lay):
+    """words of the given lengths separated by single spaces, letters symbolic over {a, b}"""
+    n = sum(lay) + len(lay) - 1
+    s = ctx.in_string(name, [1] * n)
+    if ctx.concrete is None:
+        spaces, k = set(), 0
+        for w in lay[:-1]:
+            k += w
+            spaces.add(k)
+            k += 1
+        for i, c in enumerate(s.chars()):
+            ctx.assume(c.v == 0x20 if i in spaces else z3.Or(c.v == 0x61, c.v == 0x62))
     return s
 
 
@@ -153,9 +178,17 @@ def run(ctx, shape, opts):
         ctx.sample = dict(shape)
         return
     if md in ('spell', 'ws'):
-        inp = abs_string(ctx, 'input', shape['li'])
-        prd = abs_string(ctx, 'pred', shape['lp'])
-        tgt = abs_string(ctx, 'target', shape['lt'])
+        if 'lay_i' in shape and ctx.concrete is None:
+            inp = layout_string(ctx, 'input', shape['lay_i'])
+            tgt = layout_string(ctx, 'target', shape['lay_t'])
+            same = tgt if shape['pred_is'] == 'target' else inp
+            prd = ctx.in_string('pred', [1] * len(same.chars()))
+            for c, d in zip(prd.chars(), same.chars()):
+                ctx.assume(c.v == d.v)
+        else:
+            inp = abs_string(ctx, 'input', shape['li'])
+            prd = abs_string(ctx, 'pred', shape['lp'])
+            tgt = abs_string(ctx, 'target', shape['lt'])
         g = shape['g']
         # the metric functions receive cleaned text
         ci = m.call('clean', inp, True)
